@@ -46,6 +46,24 @@ LICENSES = ["MIT", "GPL-3.0-or-later", "Apache-2.0 OR MIT", "0BSD", "ISC", "GPL-
             "LicenseRef-custom", "MIT AND (ISC OR 0BSD)", "CC-BY-SA-4.0", "LicenseRef-A.b-1", "EUPL-1.2+", "mit"]
 CONTRIBUTORS = ["Alice", "Bob <bob@example.com>", "Team Rocket", "Zoë Ø", "李四", "Dr. K. (review)", "Carol & Dave"]
 
+
+def terminator_tails():
+    """What the comment syntaxes of the live style table end a comment (or begin a comment line) with: a name that ends in one of
+    them, set off by a blank, is a name like any other to its author - and the shape the reader is known to cut."""
+    from reuse import comment
+    tails = []
+    for st in vars(comment).values():
+        if isinstance(st, type) and issubclass(st, comment.CommentStyle):
+            for part in (st.MULTI_LINE.end, st.MULTI_LINE.middle, st.SINGLE_LINE):
+                if part and part.strip() and part.strip() not in tails and "\\" not in part:
+                    tails.append(part.strip())
+    return sorted(tails)
+
+
+def tricky_names():
+    """names whose tail is a comment terminator or a line marker of some style of the table (`Jane :)`, `The other 99 %`, `semi ;`)"""
+    return TRICKY_HOLDERS + ["%s %s" % (n, t) for n, t in zip(["Jane", "The other 99", "semi", "Smile", "Team"] * 20, terminator_tails())]
+
 SPLITLINES_BREAKS = "\n\r\x0b\x0c\x1c\x1d\x1e\x85  "
 
 
@@ -168,6 +186,9 @@ def rand_body(rng, style_name=None, exotic=0.0):
             planted = (cpr, lic, con)
         except Exception:
             pass
+    if first is not None and rng.random() < exotic:
+        # the line the header has to go behind (shebang, XML declaration, `% !TEX`, …) is itself longer than the window lint reads
+        lines[0] = first + " " + rng.choice(["x", "ab ", "é"]) * rng.choice([2100, 4100, 9000])
     r = rng.random()
     if r < exotic / 3:
         lines.insert(0, "REUSE-IgnoreStart")          # unterminated ignore region in front
@@ -197,6 +218,9 @@ def rand_request(rng, tricky=0.0):
     cpr = rng.sample(pool, rng.choice([0, 1, 1, 1, 2, 3]))
     lic = rng.sample(LICENSES, rng.choice([0, 1, 1, 1, 2]))
     con = rng.sample(CONTRIBUTORS, rng.choice([0, 0, 0, 1, 2]))
+    if tricky and rng.random() < tricky:
+        # contributors are names like holders: the same terminator-tailed shapes, for every style of the table
+        con = con[:1] + [rng.choice(tricky_names())]
     if not cpr and not lic and not con:
         cpr = [HOLDERS[0]]
     return cpr, lic, con
